@@ -350,7 +350,7 @@ func (iter *iterator) SeekTo(seekToKey []byte) error {
 
 func naiveSeekTo(iter Iterator, seekToKey []byte, maxTries int) error {
 	for i := 0; maxTries <= 0 || i < maxTries; i++ {
-		key, _, err := iter.Current()
+		_, key, _, err := iter.CurrentEx() // Current() would hide the key of a deletion.
 		if err != nil {
 			return err
 		}
